@@ -119,6 +119,11 @@ impl Scenario for CryptSc {
             }
             "eg-tally" => {
                 p.set("voters", x.range(1, 16) as i64);
+                if x.chance(1, 12) {
+                    // a large committee holds the tally key: identifiers up to 255
+                    p.set("n", *x.pick(&[255i64, 255, 128, 200]));
+                    p.set("t", *x.pick(&[2i64, 3, 4, 9]));
+                }
                 let nf = x.below(4);
                 for _ in 0..nf {
                     match x.below(3) {
@@ -733,7 +738,7 @@ fn tl_tamper(plan: &Plan, lib: &dyn Lib, rec: &mut Rec, all_bits: bool) {
 // ------------------------------------------------------------------------------------------
 fn eg_tally(plan: &Plan, lib: &dyn Lib, rec: &mut Rec) {
     let g = grp_of(plan.get("g"));
-    let n = plan.get("n").clamp(2, 8) as usize;
+    let n = plan.get("n").clamp(2, 255) as usize;
     let t = plan.get("t").clamp(2, n as i64) as usize;
     let voters = plan.get("voters").clamp(1, 16) as usize;
     let mut x = Xo::derive(plan.seed, &[0xC2D]);
@@ -817,8 +822,29 @@ fn eg_tally(plan: &Plan, lib: &dyn Lib, rec: &mut Rec) {
     rec.expect("C14", "sum-decrypts-to-sum-of-plaintexts", whole.first() == Some(want.as_slice()), || format!("sum whole-key g={} | {} ciphertexts (arrival order {:?}): the sum does not decrypt to the sum of the included plaintexts times H", g.name(), included.len(), included));
     // threshold decryption from any t-of-n shares, in any order
     let mut idx: Vec<usize> = (0..n).collect();
-    x.shuffle(&mut idx);
-    idx.truncate(t + x.below((n - t + 1) as u64) as usize);
+    if n > 12 {
+        // exactly t holders answer: the last identifier(s) and/or the first, in a drawn order
+        idx = match x.below(3) {
+            0 => std::iter::once(0).chain(n - (t - 1)..n).collect(),
+            1 => std::iter::once(n - 1).chain(0..t - 1).collect(),
+            _ => {
+                let mut v = vec![n - 1, 127.min(n - 1), 126.min(n - 1)];
+                v.sort();
+                v.dedup();
+                while v.len() < t + 2 {
+                    let c = x.below(n as u64) as usize;
+                    if !v.contains(&c) {
+                        v.push(c);
+                    }
+                }
+                v
+            }
+        };
+        x.shuffle(&mut idx);
+    } else {
+        x.shuffle(&mut idx);
+        idx.truncate(t + x.below((n - t + 1) as u64) as usize);
+    }
     let mut es = vec![];
     for i in &idx {
         match rec.call(lib, g, Op::EgShare, &[&d.shares[*i], &acc]).first() {
